@@ -4,7 +4,7 @@ import json
 import os
 import sys
 
-from .core import Analysis
+from .core import Analysis, ExtractionFailed
 from .report import Report
 from . import props
 
@@ -33,6 +33,14 @@ def main():
     for fn in spec["rules"]:
         try:
             fn(an, rep)
+        except ExtractionFailed as e:
+            which = "the declaration corpus of /verif does not compile against the current derive macro / library" \
+                if "/corpus" in e.ws or "/witness" in e.ws or "gen-corpus" in e.ws else "the repository does not compile under the analysis driver"
+            r = rep.rule("X0", "the analysed program builds: the repository itself and the harness crates (declaration corpus, "
+                               "witnesses) compiled against it; a valid declaration for which the derive macro emits ill-typed "
+                               "code is a defect of the macro")
+            r.fail(os.path.basename(os.path.dirname(e.ws)) or e.ws, "build", "%s: %s" % (which, e.errors[:600]), None, e.errors)
+            break
         except KeyError as e:
             r = rep.rule(getattr(fn, "__name__", "rule"), "anchor lookup")
             r.anchor_missing(str(e))
@@ -43,7 +51,16 @@ def main():
                    (type(e).__name__, e), None, traceback.format_exc()[-1500:])
     if a.tier == "thorough":
         for fn in spec.get("thorough", []):
-            fn(an, rep)
+            try:
+                fn(an, rep)
+            except ExtractionFailed as e:
+                r = rep.rule("X0[thorough]", "the analysed program builds in every configuration of the thorough tier")
+                r.fail(os.path.basename(os.path.dirname(e.ws)) or e.ws, "build", "does not compile: %s" % e.errors[:600], None, e.errors)
+            except Exception as e:
+                import traceback
+                r = rep.rule(getattr(fn, "__name__", "rule"), "internal")
+                r.fail("<rule>", getattr(fn, "__name__", "rule"), "the rule could not analyse the current tree (%s: %s); fail "
+                       "closed" % (type(e).__name__, e), None, traceback.format_exc()[-1500:])
     rep.analysed = an.summary()
     return rep.finish()
 
